@@ -33,6 +33,7 @@ type streamCfg struct {
 	Choose  int // 0: every key, 1/2: keys whose hash is even/odd
 	Done    bool
 	MaxSize uint64
+	OnKey   func() // called from ChooseKey (producer goroutines), before the key is judged
 }
 
 func keyHash(k []byte) uint32 {
@@ -57,8 +58,13 @@ func runStream(st *badger.Stream, c streamCfg) (*streamOut, error) {
 	st.NumGo = c.NumGo
 	st.Prefix = c.Prefix
 	st.SinceTs = c.Since
-	if c.Choose != 0 {
-		st.ChooseKey = func(item *badger.Item) bool { return c.chosen(item.Key()) }
+	if c.Choose != 0 || c.OnKey != nil {
+		st.ChooseKey = func(item *badger.Item) bool {
+			if c.OnKey != nil {
+				c.OnKey()
+			}
+			return c.chosen(item.Key())
+		}
 	}
 	if c.MaxSize > 0 {
 		st.MaxSize = c.MaxSize
@@ -336,6 +342,10 @@ type c25Conc struct {
 	Free    bool    `json:"free"`    // additionally a free-running writer goroutine
 	Pad     int     `json:"pad"`     // value padding (pushes values over the threshold)
 	Streams int     `json:"streams"` // stream runs
+	// MaintAt > 0 (only without the free writer): when the producers have looked at this many keys,
+	// a generation is committed, a newer reader comes and goes, the memtable is flushed and L0 is
+	// compacted - ranges opened afterwards must still show the run's snapshot
+	MaintAt int `json:"maintat,omitempty"`
 }
 
 func seqVal(seq uint64, pad int) []byte {
@@ -398,6 +408,7 @@ func runC25Conc(c c25Conc, rec *evid.Rec) (core.Result, error) {
 		return res, fmt.Errorf("generation commit: %v", err)
 	}
 	mixed, multi := 0, 0
+	var maintDone atomic.Int32
 	for run := 0; run < c.Streams; run++ {
 		if err := dbx.RelieveL0(db, 6); err != nil {
 			return res, err
@@ -444,7 +455,36 @@ func runC25Conc(c c25Conc, rec *evid.Rec) (core.Result, error) {
 		} else {
 			st = db.NewStream()
 		}
-		out, err := runStream(st, streamCfg{NumGo: c.NumGo, Done: run%2 == 1})
+		var keysSeen atomic.Int32
+		var maintMu sync.Mutex
+		scfg := streamCfg{NumGo: c.NumGo, Done: run%2 == 1}
+		if c.MaintAt > 0 && !c.Free {
+			scfg.OnKey = func() {
+				if int(keysSeen.Add(1)) != c.MaintAt {
+					return
+				}
+				maintMu.Lock()
+				defer maintMu.Unlock()
+				if err := commitGen(); err != nil {
+					hookErr.Store(err)
+					return
+				}
+				if !managed {
+					_ = db.View(func(txn *badger.Txn) error { return nil }) // a newer reader comes and goes
+				}
+				mu.Lock() // no generation commit while the memtable is rotated
+				_, err := dbx.Flush(db)
+				mu.Unlock()
+				if err == nil {
+					err, _ = db.VerifCompact(1, badger.VerifPrio{Level: 0, Score: 2, Adjusted: 2})
+				}
+				if err != nil {
+					hookErr.Store(err)
+				}
+				maintDone.Add(1)
+			}
+		}
+		out, err := runStream(st, scfg)
 		close(stop)
 		wg.Wait()
 		y.VerifSetPointFn(nil)
@@ -513,6 +553,9 @@ func runC25Conc(c c25Conc, rec *evid.Rec) (core.Result, error) {
 	if c.Free {
 		res.Classes = append(res.Classes, "free_running_writer")
 	}
+	if maintDone.Load() > 0 {
+		res.Classes = append(res.Classes, "flush_and_compaction_during_run")
+	}
 	res.NonTrivial = mixed > 0 && multi > 0
 	return res, nil
 }
@@ -533,11 +576,14 @@ func genC25Conc(rt *rapid.T) c25Conc {
 	c.Free = rapid.IntRange(0, 2).Draw(rt, "free") == 0
 	c.Pad = rapid.SampledFrom([]int{0, 0, 40, 300}).Draw(rt, "pad")
 	c.Streams = rapid.IntRange(1, 3).Draw(rt, "streams")
+	if !c.Free && rapid.Bool().Draw(rt, "maint") {
+		c.MaintAt = rapid.IntRange(1, 12).Draw(rt, "maintat")
+	}
 	return c
 }
 
 func TestC25_StreamConcurrent(t *testing.T) {
 	core.Run(t, "C25", "concurrent",
-		"a generated layout (fills pushed into several tables/levels) whose every key is then rewritten by 'generation' transactions: generation n writes value n to ALL keys in one transaction. Stream runs (NumGo 2..16) race with generation commits issued from the stream.producer.start hook of selected producers (generated bit mask - the harness owns where the commits fall between the producers' snapshot acquisition) and optionally with a free-running writer goroutine. Oracle (schedule independent): all delivered keys carry the SAME generation (one snapshot), that generation was current at some moment of the run (managed NewStreamAt: exactly the one at the chosen timestamp), each key once, Send never concurrent. Non-trivial = >=1 generation committed during a run that delivered >=2 ranges.",
+		"a generated layout (fills pushed into several tables/levels) whose every key is then rewritten by 'generation' transactions: generation n writes value n to ALL keys in one transaction. Stream runs (NumGo 2..16) race with generation commits issued from the stream.producer.start hook of selected producers (generated bit mask - the harness owns where the commits fall between the producers' snapshot acquisition) and optionally with a free-running writer goroutine, or with a generation commit + newer reader + memtable flush + L0 compaction performed from ChooseKey after a generated number of keys (ranges opened afterwards must still show the snapshot). Oracle (schedule independent): all delivered keys carry the SAME generation (one snapshot), that generation was current at some moment of the run (managed NewStreamAt: exactly the one at the chosen timestamp), each key once, Send never concurrent. Non-trivial = >=1 generation committed during a run that delivered >=2 ranges.",
 		genC25Conc, runC25Conc)
 }
